@@ -80,4 +80,202 @@ theorem makeMoveNew_eq (T : Tables) (b : Board) (m : Move) :
   | none => rfl
   | some moved => rfl
 
+/-! ### fields of the phases -/
+
+theorem pl_withCheckers (b : Board) (x : BB) : (b.withCheckers x).pl = b.pl := rfl
+theorem pl_reset (b : Board) : b.reset.pl = b.pl := rfl
+theorem pl_finish (b : Board) (x y : BB) : (b.finish x y).pl = b.pl := rfl
+
+theorem pl_moveBase (T : Tables) (b : Board) (moved : Piece) (S D : Sq) (c : Color) (capt : Option Piece) :
+    (moveBase T b moved S D c capt).pl = (moveBase T b.pl moved S D c capt).pl := by
+  cases capt with
+  | none => simp only [moveBase, pl_xor]; rfl
+  | some cap => simp only [moveBase, pl_xor]; rfl
+
+theorem moveBase_fields (T : Tables) (b : Board) (moved : Piece) (S D : Sq) (c : Color) (capt : Option Piece) :
+    (moveBase T b moved S D c capt).stm = b.stm ∧ (moveBase T b moved S D c capt).wcr = b.wcr ∧
+    (moveBase T b moved S D c capt).bcr = b.bcr ∧ (moveBase T b moved S D c capt).ep = b.ep := by
+  cases capt <;> refine ⟨?_, ?_, ?_, ?_⟩ <;> simp only [moveBase, xor_stm, xor_wcr, xor_bcr, xor_ep]
+
+theorem setCastleRights_stm (b : Board) (c : Color) (cr : CastleRights) : (b.setCastleRights c cr).stm = b.stm := by
+  cases c <;> rfl
+theorem setCastleRights_ep (b : Board) (c : Color) (cr : CastleRights) : (b.setCastleRights c cr).ep = b.ep := by
+  cases c <;> rfl
+theorem setCastleRights_castleRights (b : Board) (c d : Color) (cr : CastleRights) :
+    (b.setCastleRights c cr).castleRights d = if d = c then cr else b.castleRights d := by
+  cases c <;> cases d <;> rfl
+
+theorem castleRights_of_fields {b b' : Board} (hw : b'.wcr = b.wcr) (hb : b'.bcr = b.bcr) (d : Color) :
+    b'.castleRights d = b.castleRights d := by
+  cases d
+  · exact hw
+  · exact hb
+
+theorem mm1_pl (T : Tables) (b : Board) (m : Move) (moved : Piece) :
+    (mm1 T b m moved).pl = (moveBase T b moved m.src m.dst b.stm (b.pieceOn m.dst)).pl := by
+  unfold mm1
+  simp only [pl_setCastleRights]
+  rw [pl_moveBase, pl_reset, ← pl_moveBase]
+
+theorem mm1_stm (T : Tables) (b : Board) (m : Move) (moved : Piece) : (mm1 T b m moved).stm = b.stm := by
+  unfold mm1
+  simp only [setCastleRights_stm]
+  exact (moveBase_fields T b.reset moved m.src m.dst b.stm (b.pieceOn m.dst)).1
+
+theorem mm1_ep (T : Tables) (b : Board) (m : Move) (moved : Piece) : (mm1 T b m moved).ep = none := by
+  unfold mm1
+  simp only [setCastleRights_ep]
+  exact (moveBase_fields T b.reset moved m.src m.dst b.stm (b.pieceOn m.dst)).2.2.2
+
+theorem mm1_castleRights (T : Tables) (b : Board) (m : Move) (moved : Piece) (d : Color) :
+    (mm1 T b m moved).castleRights d =
+      (b.castleRights d).remove (squareToCastleRights d (if d = b.stm then m.src else m.dst)) := by
+  obtain ⟨_, hw, hb, _⟩ := moveBase_fields T b.reset moved m.src m.dst b.stm (b.pieceOn m.dst)
+  have hcr : ∀ d, (moveBase T b.reset moved m.src m.dst b.stm (b.pieceOn m.dst)).castleRights d = b.castleRights d :=
+    castleRights_of_fields hw hb
+  unfold mm1
+  simp only [setCastleRights_castleRights, hcr]
+  by_cases hd : d = b.stm
+  · rw [if_pos hd, if_pos hd, hd]
+    rw [if_neg (Color.other_ne b.stm).symm]
+  · have hd' : d = b.stm.other := by
+      revert hd; cases d <;> cases b.stm <;> simp [Color.other]
+    rw [if_neg hd, if_neg hd, if_pos hd', hd']
+
+/-- the placement effect of phase 2 -/
+def mmPlace (T : Tables) (stm : Color) (ep0 : Option Sq) (m : Move) (moved : Piece) (r : Board) : Board :=
+  if moved = .pawn then
+    match m.promo with
+    | some q => (r.xor T .pawn (BB.ofSq m.dst) stm).xor T q (BB.ofSq m.dst) stm
+    | none =>
+      if mmDbl T m then r
+      else if some (m.dst.ubackward stm) = ep0 then r.xor T .pawn (BB.ofSq (m.dst.ubackward stm)) stm.other
+      else r
+  else if mmCastles T m moved then
+    (r.xor T .rook (BB.set stm.backrank (Board.castleRookStart m.dst.getFile)) stm).xor T .rook
+      (BB.set stm.backrank (Board.castleRookEnd m.dst.getFile)) stm
+  else r
+
+theorem mmCastles_knight (T : Tables) (m : Move) : mmCastles T m .knight = false := rfl
+
+theorem mm2_pl (T : Tables) (stm : Color) (ep0 : Option Sq) (m : Move) (moved : Piece) (r : Board) :
+    (mm2 T stm ep0 m moved r).pl = (mmPlace T stm ep0 m moved r).pl := by
+  unfold mm2 mmPlace
+  by_cases hk : moved = .knight
+  · subst hk
+    rw [if_pos rfl, if_neg (by decide), mmCastles_knight]
+    rfl
+  · rw [if_neg hk]
+    by_cases hp : moved = .pawn
+    · rw [if_pos hp, if_pos hp]
+      cases hq : m.promo with
+      | none =>
+        dsimp only
+        by_cases hd : mmDbl T m
+        · rw [if_pos hd, if_pos hd, pl_withCheckers, pl_setEp]
+        · rw [if_neg hd, if_neg hd]
+          by_cases he : some (m.dst.ubackward stm) = ep0
+          · rw [if_pos he, if_pos he, pl_withCheckers]
+          · rw [if_neg he, if_neg he, pl_withCheckers]
+      | some q => cases q <;> rfl
+    · rw [if_neg hp, if_neg hp]
+
+theorem withCheckers_fields (b : Board) (x : BB) :
+    (b.withCheckers x).stm = b.stm ∧ (b.withCheckers x).wcr = b.wcr ∧ (b.withCheckers x).bcr = b.bcr ∧
+    (b.withCheckers x).ep = b.ep := ⟨rfl, rfl, rfl, rfl⟩
+
+theorem mm2_fields (T : Tables) (stm : Color) (ep0 : Option Sq) (m : Move) (moved : Piece) (r : Board) :
+    (mm2 T stm ep0 m moved r).stm = r.stm ∧ (mm2 T stm ep0 m moved r).wcr = r.wcr ∧
+    (mm2 T stm ep0 m moved r).bcr = r.bcr ∧
+    (mm2 T stm ep0 m moved r).ep =
+      if moved = .pawn ∧ m.promo = none ∧ mmDbl T m then (r.setEp T m.dst).ep else r.ep := by
+  unfold mm2
+  by_cases hk : moved = .knight
+  · subst hk
+    rw [if_pos rfl, if_neg (show ¬(Piece.knight = .pawn ∧ m.promo = none ∧ mmDbl T m) from fun h => by cases h.1)]
+    exact ⟨rfl, rfl, rfl, rfl⟩
+  · rw [if_neg hk]
+    by_cases hp : moved = .pawn
+    · rw [if_pos hp]
+      cases hq : m.promo with
+      | none =>
+        dsimp only
+        by_cases hd : mmDbl T m
+        · rw [if_pos hd, if_pos (show moved = .pawn ∧ none = none ∧ mmDbl T m from ⟨hp, rfl, hd⟩)]
+          exact ⟨setEp_stm T r m.dst, setEp_wcr T r m.dst, setEp_bcr T r m.dst, rfl⟩
+        · rw [if_neg hd, if_neg (show ¬(moved = .pawn ∧ none = none ∧ mmDbl T m) from fun h => hd h.2.2)]
+          by_cases he : some (m.dst.ubackward stm) = ep0
+          · rw [if_pos he]
+            exact ⟨xor_stm T .., xor_wcr T .., xor_bcr T .., xor_ep T ..⟩
+          · rw [if_neg he]
+            exact ⟨rfl, rfl, rfl, rfl⟩
+      | some q =>
+        rw [if_neg (show ¬(moved = .pawn ∧ some q = none ∧ mmDbl T m) from fun h => by cases h.2.1)]
+        cases q <;> exact ⟨by simp only [withCheckers_fields, xor_stm], by simp only [withCheckers_fields, xor_wcr],
+          by simp only [withCheckers_fields, xor_bcr], by simp only [withCheckers_fields, xor_ep]⟩
+    · rw [if_neg hp, if_neg (show ¬(moved = .pawn ∧ m.promo = none ∧ mmDbl T m) from fun h => hp h.1)]
+      by_cases hc : mmCastles T m moved = true
+      · rw [if_pos hc]
+        exact ⟨by simp only [xor_stm], by simp only [xor_wcr], by simp only [xor_bcr], by simp only [xor_ep]⟩
+      · rw [if_neg hc]
+        exact ⟨rfl, rfl, rfl, rfl⟩
+
+theorem mmPlace_pl_congr (T : Tables) (stm : Color) (ep0 : Option Sq) (m : Move) (moved : Piece) {r r' : Board}
+    (h : r.pl = r'.pl) : (mmPlace T stm ep0 m moved r).pl = (mmPlace T stm ep0 m moved r').pl := by
+  unfold mmPlace
+  by_cases hp : moved = .pawn
+  · rw [if_pos hp, if_pos hp]
+    cases hq : m.promo with
+    | none =>
+      dsimp only
+      by_cases hd : mmDbl T m
+      · rw [if_pos hd, if_pos hd, h]
+      · rw [if_neg hd, if_neg hd]
+        by_cases he : some (m.dst.ubackward stm) = ep0
+        · rw [if_pos he, if_pos he, pl_xor, pl_xor, h]
+        · rw [if_neg he, if_neg he, h]
+    | some q =>
+      dsimp only
+      rw [pl_xor, pl_xor, pl_xor, pl_xor, h]
+  · rw [if_neg hp, if_neg hp]
+    by_cases hc : mmCastles T m moved = true
+    · rw [if_pos hc, if_pos hc, pl_xor, pl_xor, pl_xor, pl_xor, h]
+    · rw [if_neg hc, if_neg hc, h]
+
+theorem pl_pawns (b : Board) : b.pl.pawns = b.pawns := rfl
+theorem pl_colorCombined (b : Board) (d : Color) : b.pl.colorCombined d = b.colorCombined d := by cases d <;> rfl
+
+theorem mm3_fields (T : Tables) (ksq : Sq) (r : Board) :
+    (mm3 T ksq r).pl = r.pl ∧ (mm3 T ksq r).stm = r.stm.other ∧ (mm3 T ksq r).wcr = r.wcr ∧
+    (mm3 T ksq r).bcr = r.bcr ∧ (mm3 T ksq r).ep = r.ep := ⟨rfl, rfl, rfl, rfl, rfl⟩
+
+/-- the result of `make_move_new`, field by field: placement = `mmPlace` of the mover/captured toggles -/
+theorem makeMoveNew_fields (T : Tables) (b : Board) (m : Move) (moved : Piece) (h : b.pieceOn m.src = some moved) :
+    ∃ b', b.makeMoveNew T m = some b' ∧
+      b'.pl = (mmPlace T b.stm b.ep m moved (moveBase T b moved m.src m.dst b.stm (b.pieceOn m.dst))).pl ∧
+      b'.stm = b.stm.other ∧
+      (∀ d, b'.castleRights d =
+        (b.castleRights d).remove (squareToCastleRights d (if d = b.stm then m.src else m.dst))) ∧
+      b'.ep = (if moved = .pawn ∧ m.promo = none ∧ mmDbl T m then
+          (if T.adjFiles m.dst.getFile &&& T.ranks m.dst.getRank &&&
+              (moveBase T b moved m.src m.dst b.stm (b.pieceOn m.dst)).pawns &&&
+              (moveBase T b moved m.src m.dst b.stm (b.pieceOn m.dst)).colorCombined b.stm.other ≠ 0#64
+           then some m.dst else none)
+        else none) := by
+  rw [makeMoveNew_eq, h]
+  refine ⟨_, rfl, ?_, ?_, ?_, ?_⟩
+  · rw [(mm3_fields ..).1, mm2_pl]
+    exact mmPlace_pl_congr T b.stm b.ep m moved (mm1_pl T b m moved)
+  · rw [(mm3_fields ..).2.1, (mm2_fields ..).1, mm1_stm]
+  · intro d
+    rw [castleRights_of_fields (mm3_fields ..).2.2.1 (mm3_fields ..).2.2.2.1,
+      castleRights_of_fields (mm2_fields ..).2.1 (mm2_fields ..).2.2.1, mm1_castleRights]
+  · rw [(mm3_fields ..).2.2.2.2, (mm2_fields ..).2.2.2, setEp_ep, mm1_ep, mm1_stm]
+    have h1 : (mm1 T b m moved).pawns = (moveBase T b moved m.src m.dst b.stm (b.pieceOn m.dst)).pawns := by
+      rw [← pl_pawns, mm1_pl, pl_pawns]
+    have h2 : (mm1 T b m moved).colorCombined b.stm.other =
+        (moveBase T b moved m.src m.dst b.stm (b.pieceOn m.dst)).colorCombined b.stm.other := by
+      rw [← pl_colorCombined, mm1_pl, pl_colorCombined]
+    rw [h1, h2]
+
 end Chess
